@@ -100,7 +100,21 @@ def scenario(args):
     for c in ns.chips.values():
         c.pop_log = pops
     jobs, scripts = [], {}
-    if kind == "seq":
+    injected = []
+    if kind == "backlog":
+        # several frames already wait in a router's RX FIFO (its radio acknowledged them while the application was busy)
+        # and the next hop does not answer during the router's first `lost` packets (it is busy), then does
+        relay, frames = spec
+
+        def body(ns_, nm):
+            for (s, d, typ, n, fid) in frames:
+                raw = struct.pack("<HHHBB", s, d, fid, typ, 0) + bytes((i * 7 + fid) & 0xFF for i in range(n))
+                pipe = 5 if lvl(s) < lvl(relay) or s == 0 else (s >> (3 * lvl(relay))) & 7 if (s & ((1 << (3 * lvl(relay))) - 1)) == relay else 5
+                r = ns_.chips[nm].inject(pipe, raw)
+                injected.append((ns_.s.now // 1000, dict(k="inject", m=relay, f=frame_of(raw), how=str(r[1]))))
+            return 0
+        jobs.append(net.job_call(name[relay], "inject", body, budget_ms=8000))
+    elif kind == "seq":
         for (s, d, typ, n) in spec:
             msg = bytes((i * 5 + typ + s) & 0xFF for i in range(n if d != "mc" else 5))
             if d == "mc":
@@ -120,15 +134,15 @@ def scenario(args):
             o = ns.objs[e["n"]]
             f = dict(src=e["src"], dst=e["to"], typ=e["type"], id=e["id"], msg=e["msg"])
             if e["api"] == "write":
-                ev.append((e["t"], 5, dict(k="write", n=e["src"], f=f)))
+                ev.append((e["t"], 4, dict(k="write", n=e["src"], f=f)))
             else:
-                ev.append((e["t"], 5, dict(k="mcast", n=e["src"], f=f, lvl=e["level"] if e["level"] >= 0 else e["lvl"])))
+                ev.append((e["t"], 4, dict(k="mcast", n=e["src"], f=f, lvl=e["level"] if e["level"] >= 0 else e["lvl"])))
         elif e["k"] == "ret" and e["api"] in ("write", "multicast"):
             ev.append((e["t"], 4, dict(k="ret", n=addr[e["n"]], res=bool(e["res"]), exc=e["exc"])))
         elif e["k"] == "deq":
-            ev.append((e["t"], 6, dict(k="deq", n=addr[e["n"]], f=dict(src=e["from"], dst=e["to"], typ=e["type"], id=e["id"], msg=e["msg"]))))
+            ev.append((e["t"], 4, dict(k="deq", n=addr[e["n"]], f=dict(src=e["from"], dst=e["to"], typ=e["type"], id=e["id"], msg=e["msg"]))))
         elif e["k"] in ("crash", "hang"):
-            ev.append((e["t"], 7, dict(k="crash", n=addr.get(e.get("n"), -1), what=str(e.get("exc", "hang")))))
+            ev.append((e["t"], 4, dict(k="crash", n=addr.get(e.get("n"), -1), what=str(e.get("exc", "hang")))))
     groups = {}
     for p in ns.air.log:
         g = groups.setdefault((p["src"], p["load"]), dict(first=p, last=p, ok=False, got=set()))
@@ -143,12 +157,14 @@ def scenario(args):
             g["ok"] = True
     for (src, load), g in groups.items():
         ev.append((g["last"]["t"], 2, dict(k="txdone", n=addr[src], ok=g["ok"], f=frame_of(g["first"]["data"]))))
+    for (t, e) in injected:
+        ev.append((t, 0, e))
     for (t, nm, pipe, data) in pops:
         ev.append((t // 1000, 3, dict(k="rxpop", n=addr[nm], f=frame_of(data), pipe=pipe)))
     ev.sort(key=lambda x: (x[0], x[1]))
     out = [dict(e, t=t) for (t, _, e) in ev] + [dict(k="end")]
     # the callers' own ids: the model compares whole frames, the write event carries the id the header got
-    return dict(topo=topo, ev=out, meta=dict(topo=topo, kind=kind, spec=[list(map(str, x)) for x in spec],
+    return dict(topo=topo, ev=out, meta=dict(topo=topo, kind=kind, spec=[list(map(str, x)) for x in spec] if kind != "backlog" else str(spec),
                                              faults=[dict(r) for r in faults], seed=seed, jitter=jitter))
 
 
@@ -177,6 +193,21 @@ def jobs_for(seed, quick):
         senders = [a for a in tree if a not in nomc]
         for s in senders if not quick else senders[:3]:
             out.append((topo, "seq", [(s, "mc", 3 + k, l) for k, l in enumerate((0, 1, 2, 3, None))], [], rng.randrange(1 << 30), 3000))
+        # (e) a backlog of frames in a router's RX FIFO while its next hop is busy for part of / one / two retry cycles
+        routers = [a for a in tree if any(route(s, d)[1:-1].count(a) for s in tree for d in tree if s != d)]
+        for relay in routers if not quick else routers[:2]:
+            for lost in (0, 1, 6, 7, 12) if not quick else (0, 6):
+                for w in (2, 3):
+                    cands = [(s, d) for s in tree for d in tree if s != d and relay in route(s, d)[1:-1] and route(s, d)[route(s, d).index(relay) - 1] != d]
+                    rng.shuffle(cands)
+                    frs = []
+                    for j in range(w):
+                        s, d = cands[0] if j else cands[0]
+                        # frames of one neighbour (they arrive on one pipe, as a stream of fragments would)
+                        prev = route(s, d)[route(s, d).index(relay) - 1]
+                        frs.append((s, d, rng.choice((1, 65)), rng.randrange(0, 24), 900 + j))
+                    out.append((topo, "backlog", (relay, frs), [dict(src=relay, kind="any", fate="P", count=lost)] if lost else [],
+                                rng.randrange(1 << 30), 3000))
         # (d) concurrent writes (cross traffic through a common router, an origin that forwards while it waits)
         for _ in range(4 if quick else 40):
             k = rng.choice((2, 2, 3))
